@@ -1417,7 +1417,14 @@ class FileStorage(
                 dest = os.path.dirname(old + file_path[lblob_dir:])
                 if not os.path.exists(dest):
                     os.makedirs(dest)
-                link_or_copy(file_path, old + file_path[lblob_dir:])
+                try:
+                    link_or_copy(file_path, old + file_path[lblob_dir:])
+                except FileNotFoundError:
+                    # We don't hold the commit lock here.  A transaction
+                    # that was aborted since we listed the directory
+                    # takes its blob files with it: nothing to keep.
+                    if os.path.exists(file_path):
+                        raise
 
     def iterator(self, start=None, stop=None):
         return FileIterator(self._file_name, start, stop)
